@@ -1,2 +1,122 @@
-import Moclo.Model.Entity
-/-! placeholder for C19 (theorems follow) -/
+import Moclo.Proofs.Assembly
+/-!
+# C19 — parts of the same type are interchangeable
+
+Model: `assemble`.  `Interchangeable e e'`: `e'` stands where `e` stood (same Python-level position /
+identity in the argument list), is a valid module of its class reporting the same upstream and downstream
+overhangs as `e` (`gmod` = both overhangs, upper-cased), its citations are well formed and its extraction
+does not fail.
+-/
+namespace Moclo.C19
+open Moclo
+
+/-- either the same entity, or a replacement with the same two overhangs -/
+def Interchangeable (e e' : Ent) : Prop :=
+  e' = e ∨ (e'.oid = e.oid ∧ e'.gmod = e.gmod ∧ e'.faulty = false ∧ (derefRec e'.rcd).isSome ∧
+            ∃ m, e'.spec.matchSeq e'.rcd.seq = .ok m)
+
+theorem evalPrefix_interchangeable {ms ms' : List Ent} (h : List.Forall₂ Interchangeable ms ms') :
+    evalPrefix ms' = evalPrefix ms := by
+  induction h with
+  | nil => rfl
+  | @cons e e' es es' he _ ih =>
+    have hg : e'.gmod = e.gmod := by
+      rcases he with rfl | ⟨_, h2, _⟩
+      · rfl
+      · exact h2
+    simp only [evalPrefix, hg, ih]
+
+theorem find_interchangeable {ms ms' : List Ent} (h : List.Forall₂ Interchangeable ms ms') (k : Nat) {e : Ent}
+    (he : ms.find? (fun e => e.oid = k) = some e) :
+    ∃ e', ms'.find? (fun e => e.oid = k) = some e' ∧ Interchangeable e e' := by
+  induction h with
+  | nil => simp at he
+  | @cons a a' as as' ha _ ih =>
+    have ho : a'.oid = a.oid := by
+      rcases ha with rfl | ⟨h1, _⟩
+      · rfl
+      · exact h1
+    simp only [List.find?_cons, ho] at he ⊢
+    by_cases hk : a.oid = k
+    · simp only [hk, decide_true] at he ⊢
+      simp only [Option.some.injEq] at he; subst he
+      exact ⟨a', rfl, ha⟩
+    · simp only [hk, decide_false] at he ⊢
+      exact ih he
+
+theorem deref_interchangeable {ms ms' : List Ent} (h : List.Forall₂ Interchangeable ms ms')
+    (hd : ∀ e ∈ ms, (derefRec e.rcd).isSome) : ∀ e ∈ ms', (derefRec e.rcd).isSome := by
+  induction h with
+  | nil => intro e he; simp at he
+  | @cons a a' as as' ha _ ih =>
+    intro e he
+    rcases List.mem_cons.mp he with rfl | he
+    · rcases ha with rfl | ⟨_, _, _, hd', _⟩
+      · exact hd _ (by simp)
+      · exact hd'
+    · exact ih (fun x hx => hd x (List.mem_cons_of_mem _ hx)) e he
+
+theorem find_none_interchangeable {ms ms' : List Ent} (h : List.Forall₂ Interchangeable ms ms') (k : Nat)
+    (hf : ms.find? (fun e => e.oid = k) = none) : ms'.find? (fun e => e.oid = k) = none := by
+  induction h with
+  | nil => rfl
+  | @cons a a' as as' ha _ ih =>
+    have ho : a'.oid = a.oid := by
+      rcases ha with rfl | ⟨h1, _⟩
+      · rfl
+      · exact h1
+    simp only [List.find?_cons, ho] at hf ⊢
+    by_cases hk : a.oid = k
+    · simp [hk] at hf
+    · simp only [hk, decide_false] at hf ⊢
+      exact ih hf
+
+/-- **substitution**: if an assembly succeeds, replacing any of its modules by valid modules with the same
+upstream and downstream overhangs also succeeds; both products are the concatenation, along the *same*
+chain, of the modules' retained fragments followed by the same vector fragment — so the new product differs
+from the old one only in the segments of the replaced modules: vector backbone, every other module's
+segment and every junction are literally the same -/
+theorem substitute_modules {v : Ent} {mods mods' : List Ent} {pid pname : Nat} {p : Product} {after : List Rec}
+    (h : assemble v mods pid pname = (.ok p, after)) (hrel : List.Forall₂ Interchangeable mods mods') :
+    ∃ (p' : Product) (chain : List (GMod Word)),
+      (assemble v mods' pid pname).1 = .ok p' ∧
+      p.rcd.seq = (chain.map (fun g => fragOfOid mods g.oid)).flatten ++ v.fragment ∧
+      p'.rcd.seq = (chain.map (fun g => fragOfOid mods' g.oid)).flatten ++ v.fragment ∧
+      p'.unused = p.unused ∧
+      ∀ g ∈ chain, (∀ e, mods.find? (fun e => e.oid = g.oid) = some e →
+        mods'.find? (fun e => e.oid = g.oid) = some e) → fragOfOid mods' g.oid = fragOfOid mods g.oid := by
+  obtain ⟨gv, gs, map, chain, rest, h1, h2, h3, h4, h5, h6, h7, h8, _, _, _, _, _, h9, h10, h11, h12⟩ := assemble_ok h
+  have h3' : evalPrefix mods' = (gs, none) := by rw [evalPrefix_interchangeable hrel]; exact h3
+  have hd' := deref_interchangeable hrel h11
+  have hch' : ∀ g ∈ chain, ∃ e m, mods'.find? (fun e => e.oid = g.oid) = some e ∧ e.faulty = false ∧
+      e.spec.matchSeq e.rcd.seq = .ok m := by
+    intro g hg
+    obtain ⟨e, m, hf, hfa, hm⟩ := h9 g hg
+    obtain ⟨e', hf', hi⟩ := find_interchangeable hrel g.oid hf
+    rcases hi with rfl | ⟨_, _, hfa', _, m', hm'⟩
+    · exact ⟨e', m, hf', hfa, hm⟩
+    · exact ⟨e', m', hf', hfa', hm'⟩
+  obtain ⟨p', hp'⟩ := assemble_succeeds pid pname h1 h2 h3' h4 h5 h6 hd' h12 hch' h10
+  obtain ⟨gv', gs', map', chain', rest', k1, _, k3, k4, _, k6, k7, k8, _⟩ :=
+    assemble_ok (show assemble v mods' pid pname = (.ok p', (assemble v mods' pid pname).2) from
+      Prod.ext hp' rfl)
+  -- the graph part is literally the same, hence the same chain and leftover
+  have e1 : gv' = gv := by rw [h1] at k1; cases k1; rfl
+  have e2 : gs' = gs := by rw [h3'] at k3; cases k3; rfl
+  subst e1 e2
+  have e3 : map' = map := by rw [h4] at k4; cases k4; rfl
+  subst e3
+  rw [h6] at k6
+  simp only [Prod.mk.injEq] at k6
+  obtain ⟨e4, e5, _⟩ := k6
+  subst e4 e5
+  refine ⟨p', chain, hp', h7, k7, by rw [k8, h8], ?_⟩
+  intro g _ hsame
+  unfold fragOfOid
+  cases hf : mods.find? (fun e => e.oid = g.oid) with
+  | none => rw [find_none_interchangeable hrel g.oid hf]
+  | some e => rw [hsame e hf]
+
+/-! non-vacuity: see `Moclo.C01` example; a replacement with another target changes only that segment -/
+
+end Moclo.C19
